@@ -252,7 +252,12 @@ pub struct ChecksumDbStats {
 fn system_time_to_parts(time: SystemTime) -> (i64, i32) {
     match time.duration_since(UNIX_EPOCH) {
         Ok(duration) => (duration.as_secs() as i64, duration.subsec_nanos() as i32),
-        Err(_) => (0, 0), // Handle times before UNIX_EPOCH
+        // Times before UNIX_EPOCH count backwards. (They were all keyed as (0, 0): an edit that
+        // kept the size and moved such a time stamp found the row of the older version.)
+        Err(before) => {
+            let before = before.duration();
+            (-(before.as_secs() as i64), -(before.subsec_nanos() as i32))
+        }
     }
 }
 
